@@ -697,3 +697,179 @@ Proof. exact prepend_total. Qed.
 Check as_path_prepend_total :
   forall ty asn buf, exists b, path_prepend_b ty asn buf = Ok b.
 Print Assumptions as_path_prepend_total.
+
+(* Add-Path sessions: every entry the neighbour holds is recorded in the ExportMap - after one
+   call if that was so before, hence along any history that starts with an empty map - so a
+   later change that names the path as replaced, or no longer lists it, reaches the entry. *)
+Theorem export_map_covers_view_addpath :
+  forall x pol emax raddr cid c m r,
+    emax <> 1 ->
+    process_change x pol emax raddr cid c (EAddPath m) = Ok r ->
+    exists m', snd r = EAddPath m'
+      /\ forall d pid v0,
+           (has_entry v0 = true -> In pid (ap_ids m d)) ->
+           has_entry (view_after (fst r) d pid v0) = true -> In pid (ap_ids m' d).
+Proof. exact C09_export_map_covers_view_addpath. Qed.
+Check export_map_covers_view_addpath :
+  forall x pol emax raddr cid c m r,
+    emax <> 1 ->
+    process_change x pol emax raddr cid c (EAddPath m) = Ok r ->
+    exists m', snd r = EAddPath m'
+      /\ forall d pid v0,
+           (has_entry v0 = true -> In pid (ap_ids m d)) ->
+           has_entry (view_after (fst r) d pid v0) = true -> In pid (ap_ids m' d).
+Print Assumptions export_map_covers_view_addpath.
+
+(* ... along histories. *)
+Theorem export_map_covers_view_addpath_history :
+  forall x pol emax raddr cid cs m r,
+    emax <> 1 ->
+    run_changes x pol emax raddr cid cs (EAddPath m) = Ok r ->
+    exists m', snd r = EAddPath m'
+      /\ forall d pid v0,
+           (has_entry v0 = true -> In pid (ap_ids m d)) ->
+           has_entry (view_after (fst r) d pid v0) = true -> In pid (ap_ids m' d).
+Proof. exact C09_export_map_covers_view_addpath_history. Qed.
+Check export_map_covers_view_addpath_history :
+  forall x pol emax raddr cid cs m r,
+    emax <> 1 ->
+    run_changes x pol emax raddr cid cs (EAddPath m) = Ok r ->
+    exists m', snd r = EAddPath m'
+      /\ forall d pid v0,
+           (has_entry v0 = true -> In pid (ap_ids m d)) ->
+           has_entry (view_after (fst r) d pid v0) = true -> In pid (ap_ids m' d).
+Print Assumptions export_map_covers_view_addpath_history.
+
+(* (9g) Add-Path neighbour, ANY destination: after restale_llgr's whole stream, what the
+   neighbour holds for an eligible path of the marked peer carries LLGR_STALE, or it holds
+   nothing (any_from_addr = true: an eligible path of the peer exists). *)
+Theorem llgr_stream_addpath :
+  forall x pol emax raddr cid fam d old addr paths m r p pid v0 v,
+    policy_keeps_decodable pol -> emax <> 1 ->
+    (forall q, In q paths -> decodable (p_attrs q)) ->
+    (forall q, In q paths -> src_raddr (p_src q) = addr -> src_llgr (p_src q) = true) ->
+    (forall q, In q paths -> p_lpid q = pid -> src_raddr (p_src q) = addr) ->
+    In p paths -> p_lpid p = pid ->
+    (has_entry v0 = true -> In pid (ap_ids m d)) ->
+    run_changes x pol emax raddr cid (restale_llgr_changes fam d old true addr paths) (EAddPath m) = Ok r ->
+    view_after (fst r) d pid v0 = Some v -> carries_llgr_stale v.
+Proof. exact C09_llgr_stream_addpath. Qed.
+Check llgr_stream_addpath :
+  forall x pol emax raddr cid fam d old addr paths m r p pid v0 v,
+    policy_keeps_decodable pol -> emax <> 1 ->
+    (forall q, In q paths -> decodable (p_attrs q)) ->
+    (forall q, In q paths -> src_raddr (p_src q) = addr -> src_llgr (p_src q) = true) ->
+    (forall q, In q paths -> p_lpid q = pid -> src_raddr (p_src q) = addr) ->
+    In p paths -> p_lpid p = pid ->
+    (has_entry v0 = true -> In pid (ap_ids m d)) ->
+    run_changes x pol emax raddr cid (restale_llgr_changes fam d old true addr paths) (EAddPath m) = Ok r ->
+    view_after (fst r) d pid v0 = Some v -> carries_llgr_stale v.
+Print Assumptions llgr_stream_addpath.
+
+(* (9h) NO_LLGR.  TableManager::mark_llgr_stale = restale_llgr then drop_no_llgr; a route that
+   carries NO_LLGR does not outlive the start of the LLGR period of its source: after both
+   change streams the neighbour holds nothing for it (best-only and Add-Path). *)
+Theorem no_llgr_route_withdrawn :
+  forall x pol emax raddr cid ps nh attrs ops1 ops2 e,
+    has_no_llgr attrs = true ->
+    llgr_scenario_full x pol emax raddr cid ps nh attrs = Ok (ops1, ops2, e) ->
+    view_after (ops1 ++ ops2) 1 (if emax =? 1 then 0 else 1) None = None.
+Proof. exact C09_no_llgr_route_withdrawn. Qed.
+Check no_llgr_route_withdrawn :
+  forall x pol emax raddr cid ps nh attrs ops1 ops2 e,
+    has_no_llgr attrs = true ->
+    llgr_scenario_full x pol emax raddr cid ps nh attrs = Ok (ops1, ops2, e) ->
+    view_after (ops1 ++ ops2) 1 (if emax =? 1 then 0 else 1) None = None.
+Print Assumptions no_llgr_route_withdrawn.
+
+(* ... and without NO_LLGR the full scenario is the one of llgr_stale_readvertised. *)
+Theorem llgr_scenario_full_without_no_llgr :
+  forall x pol emax raddr cid ps nh attrs,
+    has_no_llgr attrs = false ->
+    llgr_scenario_full x pol emax raddr cid ps nh attrs = llgr_scenario x pol emax raddr cid ps nh attrs.
+Proof. exact llgr_scenario_full_plain. Qed.
+Check llgr_scenario_full_without_no_llgr :
+  forall x pol emax raddr cid ps nh attrs,
+    has_no_llgr attrs = false ->
+    llgr_scenario_full x pol emax raddr cid ps nh attrs = llgr_scenario x pol emax raddr cid ps nh attrs.
+Print Assumptions llgr_scenario_full_without_no_llgr.
+
+(* Add-Path sessions, the other direction: the ExportMap records nothing the neighbour does not
+   hold (one call). *)
+Theorem export_map_within_view_addpath :
+  forall x pol emax raddr cid c m r,
+    emax <> 1 ->
+    process_change x pol emax raddr cid c (EAddPath m) = Ok r ->
+    exists m', snd r = EAddPath m'
+      /\ forall d pid v0,
+           (In pid (ap_ids m d) -> has_entry v0 = true) ->
+           In pid (ap_ids m' d) -> has_entry (view_after (fst r) d pid v0) = true.
+Proof. exact C09_export_map_within_view_addpath. Qed.
+Check export_map_within_view_addpath :
+  forall x pol emax raddr cid c m r,
+    emax <> 1 ->
+    process_change x pol emax raddr cid c (EAddPath m) = Ok r ->
+    exists m', snd r = EAddPath m'
+      /\ forall d pid v0,
+           (In pid (ap_ids m d) -> has_entry v0 = true) ->
+           In pid (ap_ids m' d) -> has_entry (view_after (fst r) d pid v0) = true.
+Print Assumptions export_map_within_view_addpath.
+
+(* Along any history of an Add-Path session that starts with an empty map, ExportMap::sent_path_ids
+   is exactly the set of path ids the neighbour holds for the destination. *)
+Theorem export_map_exact_addpath_history :
+  forall x pol emax raddr cid cs r d pid,
+    emax <> 1 ->
+    run_changes x pol emax raddr cid cs (EAddPath []) = Ok r ->
+    (has_entry (view_after (fst r) d pid None) = true <-> was_sent_path (snd r) d pid).
+Proof. exact C09_export_map_exact_addpath_history. Qed.
+Check export_map_exact_addpath_history :
+  forall x pol emax raddr cid cs r d pid,
+    emax <> 1 ->
+    run_changes x pol emax raddr cid cs (EAddPath []) = Ok r ->
+    (has_entry (view_after (fst r) d pid None) = true <-> was_sent_path (snd r) d pid).
+Print Assumptions export_map_exact_addpath_history.
+
+(* The caller.  PeerSession::handle_prefix_update (model run_updates: nothing for a family that
+   was not negotiated, else process_nlri_change with the session's own parameters) feeds the
+   family's PendingTx, where the last operation for a key wins (model pending_after).  Every
+   announcement that is queued for the wire, along any run, is an advertisement in the sense of
+   the statements above - so they all hold of what drain_messages hands to the encoder. *)
+Theorem queued_announcements_are_advertised :
+  forall x pol emax raddr cid cs e r ap d key nh a,
+    run_updates true x (lift_policy pol) emax raddr cid cs e = Ok r ->
+    pending_after ap (fst r) d key PNothing = PReach nh a ->
+    exists c e' pid s, In c cs /\ advertised x pol emax raddr cid c e' d pid nh a s.
+Proof. exact C09_queued_announcements_are_advertised. Qed.
+Check queued_announcements_are_advertised :
+  forall x pol emax raddr cid cs e r ap d key nh a,
+    run_updates true x (lift_policy pol) emax raddr cid cs e = Ok r ->
+    pending_after ap (fst r) d key PNothing = PReach nh a ->
+    exists c e' pid s, In c cs /\ advertised x pol emax raddr cid c e' d pid nh a s.
+Print Assumptions queued_announcements_are_advertised.
+
+Theorem family_not_negotiated_sends_nothing :
+  forall x polr emax raddr cid cs e,
+    run_updates false x polr emax raddr cid cs e = Ok ([], e).
+Proof. exact run_updates_no_family. Qed.
+Check family_not_negotiated_sends_nothing :
+  forall x polr emax raddr cid cs e,
+    run_updates false x polr emax raddr cid cs e = Ok ([], e).
+Print Assumptions family_not_negotiated_sends_nothing.
+
+(* Route refresh / soft reset out.  PeerSession::apply_refresh_walk (model refresh_changes: each
+   destination once per path with that path named as replaced on an Add-Path session, once
+   otherwise) goes through the same process_nlri_change: every announcement it queues is an
+   advertisement of a destination of the walk, so all the statements above hold of it. *)
+Theorem refresh_announcements_are_advertised :
+  forall x pol emax raddr cid walk e r ap d key nh a,
+    run_updates true x (lift_policy pol) emax raddr cid (flat_map (refresh_changes emax) walk) e = Ok r ->
+    pending_after ap (fst r) d key PNothing = PReach nh a ->
+    exists c0 rep e' pid s, In c0 walk /\ advertised x pol emax raddr cid (with_replaced c0 rep) e' d pid nh a s.
+Proof. exact C09_refresh_announcements_are_advertised. Qed.
+Check refresh_announcements_are_advertised :
+  forall x pol emax raddr cid walk e r ap d key nh a,
+    run_updates true x (lift_policy pol) emax raddr cid (flat_map (refresh_changes emax) walk) e = Ok r ->
+    pending_after ap (fst r) d key PNothing = PReach nh a ->
+    exists c0 rep e' pid s, In c0 walk /\ advertised x pol emax raddr cid (with_replaced c0 rep) e' d pid nh a s.
+Print Assumptions refresh_announcements_are_advertised.
